@@ -20,7 +20,9 @@ import (
 // edge kind: "func" (provider function parameters), "struct" (wire.Struct
 // field list), "field" (wire.FieldsOf: the node is a field of its single
 // successor), "bind" (wire.Bind: the node is an interface bound to its single
-// successor), "value" (leaf).
+// successor), "value" (leaf), "missing" (leaf: a type nothing provides, so
+// that analysis has to terminate with a missing-input diagnostic when the
+// injector's result depends on it).
 
 type GNode struct {
 	Kind string `json:"k"`
@@ -63,7 +65,7 @@ func (g *GCase) normalize() {
 				if len(n.Out) != 1 || n.Out[0] == i && n.Kind == "bind" {
 					n.Kind = "func"
 				}
-			case "value":
+			case "value", "missing":
 				if len(n.Out) != 0 {
 					n.Kind = "func"
 				}
@@ -75,6 +77,10 @@ func (g *GCase) normalize() {
 		for i := range g.Nodes {
 			n := &g.Nodes[i]
 			if (n.Kind == "bind" || n.Kind == "field") && g.Nodes[n.Out[0]].Kind == "bind" {
+				n.Kind = "func"
+			}
+			// a binding to a type nothing provides is a different diagnostic
+			if n.Kind == "bind" && g.Nodes[n.Out[0]].Kind == "missing" {
 				n.Kind = "func"
 			}
 		}
@@ -114,6 +120,32 @@ func (g *GCase) cyclic() (any bool, avoiding0 bool) {
 		return false
 	}
 	return run(-1), run(0)
+}
+
+// missingNeeded reports whether the injector's result depends on a type
+// nothing provides.
+func (g *GCase) missingNeeded() bool {
+	if g.Root < 0 {
+		return false
+	}
+	seen := make([]bool, len(g.Nodes))
+	var dfs func(v int) bool
+	dfs = func(v int) bool {
+		if seen[v] {
+			return false
+		}
+		seen[v] = true
+		if g.Nodes[v].Kind == "missing" {
+			return true
+		}
+		for _, w := range g.Nodes[v].Out {
+			if dfs(w) {
+				return true
+			}
+		}
+		return false
+	}
+	return dfs(g.Root)
 }
 
 func (g *GCase) ty(i int) string {
@@ -176,13 +208,20 @@ func (g *GCase) render(pkg string) map[string]string {
 			items = append(items, fmt.Sprintf("wire.FieldsOf(new(*T%d), \"G%d\")", nd.Out[0], i))
 		case "value":
 			items = append(items, fmt.Sprintf("wire.Value(&T%d{})", i))
+		case "missing":
+			items = append(items, "")
 		}
 	}
 	res := "*R"
 	if g.Root >= 0 {
 		res = g.ty(g.Root)
 	}
-	top := items
+	var top []string
+	for _, it := range items {
+		if it != "" {
+			top = append(top, it)
+		}
+	}
 	if g.Parts >= 2 {
 		// part of node i: bindings must sit with the provider of their concrete type
 		partOf := func(i int) int {
@@ -195,7 +234,9 @@ func (g *GCase) render(pkg string) map[string]string {
 		idx := 0
 		for i, nd := range g.Nodes {
 			_ = nd
-			parts[partOf(i)] = append(parts[partOf(i)], items[idx])
+			if items[idx] != "" {
+				parts[partOf(i)] = append(parts[partOf(i)], items[idx])
+			}
 			idx++
 		}
 		top = nil
@@ -216,7 +257,7 @@ func (g *GCase) render(pkg string) map[string]string {
 		return map[string]string{"defs.go": d.String(), "inject.go": inj}
 	}
 	if g.Sub {
-		fmt.Fprintf(&d, "var Sub = wire.NewSet(\n\t%s,\n)\n\n", strings.Join(items, ",\n\t"))
+		fmt.Fprintf(&d, "var Sub = wire.NewSet(\n\t%s,\n)\n\n", strings.Join(top, ",\n\t"))
 		top = []string{"Sub"}
 	}
 	if g.Root < 0 {
@@ -255,6 +296,16 @@ func c07Judge(g *GCase, o c07Obs) *eng.Fail {
 		}
 		if o.HasGen {
 			return eng.Failf("C07 output written for a cyclic provider set", "diagnostics:\n%s", txt)
+		}
+		return nil
+	}
+	if g.missingNeeded() {
+		// acyclic, but the result depends on a type nothing provides
+		if !o.Obs.Failed() {
+			return eng.Failf("C07 acyclic provider set with a missing input accepted", "graph %s was accepted (gen file present: %v)", g.key(), o.HasGen)
+		}
+		if !strings.Contains(txt, "no provider found for") || strings.Contains(txt, "cycle for") {
+			return eng.Failf("C07 acyclic provider set with a missing input rejected with the wrong diagnostic", "diagnostics:\n%s", txt)
 		}
 		return nil
 	}
@@ -429,6 +480,19 @@ func genGraph() *rapid.Generator[*GCase] {
 		g.Root = rapid.SampledFrom([]int{-1, 0, 0}).Draw(t, "root")
 		g.Sub = rapid.Bool().Draw(t, "sub")
 		g.Parts = rapid.SampledFrom([]int{0, 0, 0, 2, 3, 4}).Draw(t, "parts")
+		if rapid.IntRange(0, 99).Draw(t, "withmissing") < 30 {
+			// one or two leaves lose their provider
+			var leaves []int
+			for i := range g.Nodes {
+				if len(g.Nodes[i].Out) == 0 {
+					leaves = append(leaves, i)
+				}
+			}
+			for k := 0; k < 2 && len(leaves) > 0; k++ {
+				g.Nodes[leaves[rapid.IntRange(0, len(leaves)-1).Draw(t, "missingleaf")]].Kind = "missing"
+			}
+			g.Tag += "-missing"
+		}
 		g.normalize()
 		return g
 	})
@@ -454,6 +518,16 @@ func smallGraph(n, code int, seed uint64) *GCase {
 	g.Root = []int{-1, 0}[(ex>>8)&1]
 	g.Sub = (ex>>9)&1 == 1
 	g.Parts = []int{0, 0, 2, 3}[(ex>>10)&3]
+	if (ex>>12)&3 == 0 {
+		// the last leaf loses its provider
+		for i := n - 1; i >= 0; i-- {
+			if len(adj[i]) == 0 {
+				g.Nodes[i].Kind = "missing"
+				g.Tag += "-missing"
+				break
+			}
+		}
+	}
 	g.normalize()
 	return g
 }
